@@ -1,1 +1,149 @@
-From LLGoV Require Import C08.Model C08.Proofs.
+(* C08 - property theorems only.  Each is closed by [exact <lemma>] (or a direct use of
+   lemmas) and followed by Print Assumptions (the driver re-prints them on every run).
+
+   Three layout computations (Model.v): go_* (the types.Sizes object used to fold
+   unsafe.Sizeof/Alignof/Offsetof: goProgram around go/types gcSizes), ll_* (LLVM data
+   layout of the lowered type, what generated code allocates and addresses), abi_* (the
+   descriptor table ssa/abi/type.go). *)
+From LLGoV Require Import Lib.Common C08.Model C08.Proofs.
+Local Open Scope N_scope.
+
+(* (a) = (b).  On every target where the type checker's sizes are the gc sizes with
+   MaxAlign = pointer size and LLVM aligns i64/double to the pointer size (amd64, arm64,
+   386), for EVERY type of the grammar in which no struct ends in a zero-size field behind
+   a sized field: constant-folded size, alignment and field offsets are exactly the numbers
+   of the LLVM layout.  Covers nested padding, arrays of any length incl. 0, func values (two
+   words, added by extraSize), strings, slices, interfaces, maps, channels, complex. *)
+Theorem layouts_agree : forall T t,
+  agree_target T -> wf_ty t = true -> nzt t = true ->
+  go_size T t = ll_size T t /\ go_align T t = ll_align T t /\
+  go_offsets T (top_fields t) = ll_offsets T (top_fields t).
+Proof. exact go_eq_ll. Qed.
+Print Assumptions layouts_agree.
+
+(* (c) = (b) on the 64-bit agreeing targets: Size_ and Align_ of the descriptor are the
+   LLVM numbers (FieldAlign is Align in the source). *)
+Theorem descriptor_agrees : forall T t,
+  agree_target T -> ptr T = 8 -> wf_ty t = true -> nzt t = true ->
+  abi_size T t = ll_size T t /\ abi_align T t = ll_align T t.
+Proof. intros T t A P W Z. split; [now apply abi_size_ll|now apply abi_align_ll]. Qed.
+Print Assumptions descriptor_agrees.
+
+(* the hypotheses are satisfiable by the real targets and by a type with padding, a func
+   value inside an array inside a struct, and zero-size members that are not tails *)
+Example agree_targets : agree_target amd64 /\ agree_target arm64 /\ agree_target i386.
+Proof. unfold agree_target; cbn; repeat split; auto. Qed.
+Example agree_nontrivial :
+  let t := TStruct [TInt 4; TStruct [TInt 1; TArr 2 TFunc]; TStruct []; TInt 1; TArr 3 (TStruct [TInt 2; TC128; TInt 1])] in
+  wf_ty t = true /\ nzt t = true /\ go_size amd64 t = 152 /\ go_offsets amd64 (top_fields t) = [0; 8; 48; 48; 56].
+Proof. repeat split. Qed.
+
+(* The LLVM layout is well formed on every target of interest and every type (zero-size
+   tails included): alignment non-zero, size a multiple of it, every field offset a multiple
+   of the field's alignment, fields in increasing order without overlap and inside the struct. *)
+Theorem llvm_size_multiple_of_align : forall T t,
+  llvm_target T -> wf_ty t = true -> ll_align T t <> 0 /\ (ll_align T t | ll_size T t).
+Proof. intros T t L W. exact (ll_wf T L t W). Qed.
+Print Assumptions llvm_size_multiple_of_align.
+
+Theorem llvm_offsets_aligned : forall T fs i o f,
+  llvm_target T -> wf_ty (TStruct fs) = true ->
+  nth_error (ll_offsets T fs) i = Some o -> nth_error fs i = Some f -> (ll_align T f | o).
+Proof.
+  intros T fs i o f L W Ho Hf. unfold ll_offsets in Ho.
+  apply (offs_from_aligned (map (ll T) fs) 0 i o (ll T f)); auto.
+  - now apply map_nth_error.
+  - apply ll_wf; auto. cbn in W. rewrite forallb_forall in W. apply W. eapply nth_error_In; eauto.
+Qed.
+Print Assumptions llvm_offsets_aligned.
+
+Theorem llvm_offsets_increasing_disjoint : forall T fs i j oi oj fi,
+  (i < j)%nat -> nth_error (ll_offsets T fs) i = Some oi -> nth_error (ll_offsets T fs) j = Some oj ->
+  nth_error fs i = Some fi -> oi + ll_size T fi <= oj.
+Proof.
+  intros T fs i j oi oj fi L Hi Hj Hf. unfold ll_offsets in *.
+  apply (offs_from_disjoint (map (ll T) fs) 0 i j oi oj (ll T fi)); auto. now apply map_nth_error.
+Qed.
+Print Assumptions llvm_offsets_increasing_disjoint.
+
+Theorem llvm_fields_inside_struct : forall T fs i o f,
+  nth_error (ll_offsets T fs) i = Some o -> nth_error fs i = Some f ->
+  o + ll_size T f <= ll_size T (TStruct fs).
+Proof.
+  intros T fs i o f Ho Hf. unfold ll_offsets, ll_size in *. cbn [ll fst].
+  pose proof (offs_from_within (map (ll T) fs) 0 i o (ll T f) Ho (map_nth_error (ll T) i fs Hf)).
+  pose proof (align_up_ge (end_from 0 (map (ll T) fs)) (max_align (map (ll T) fs))). lia.
+Qed.
+Print Assumptions llvm_fields_inside_struct.
+
+(* By layouts_agree the same holds for the type checker's numbers on the agreeing targets. *)
+Theorem go_size_multiple_of_align : forall T t,
+  agree_target T -> wf_ty t = true -> nzt t = true -> (go_align T t | go_size T t).
+Proof.
+  intros T t A W Z. destruct (go_eq_ll T t A W Z) as [-> [-> _]].
+  apply ll_wf; auto. destruct A as [_ [HP [_ L6]]]. split; [exact HP|]. rewrite L6. exact HP.
+Qed.
+Print Assumptions go_size_multiple_of_align.
+
+(* ---- where the unchanged tree violates the property (each confirmed on the real code
+   by the harness, see known_findings.txt) ---- *)
+
+(* gc pads a struct that ends in a zero-size field, LLVM does not: unsafe.Sizeof and the
+   descriptor say 16, the allocation is 8; one level up even the field offsets differ. *)
+Theorem layouts_agree_zero_size_tail_refuted :
+  exists T t, agree_target T /\ wf_ty t = true /\
+    go_size T (TStruct [TInt 8; TStruct []]) <> ll_size T (TStruct [TInt 8; TStruct []]) /\
+    abi_size T (TStruct [TInt 8; TStruct []]) <> ll_size T (TStruct [TInt 8; TStruct []]) /\
+    go_offsets T (top_fields t) <> ll_offsets T (top_fields t).
+Proof.
+  exists amd64, w_zero_tail_nested.
+  destruct zero_tail_witness as [A [W [G [L [B [GO LO]]]]]].
+  fold w_zero_tail. rewrite G, L, B, GO, LO. repeat split; auto; discriminate.
+Qed.
+Print Assumptions layouts_agree_zero_size_tail_refuted.
+
+(* linux/arm: go/types gc sizes have MaxAlign 4, the LLVM data layout has i64:64 *)
+Theorem layouts_agree_arm_refuted :
+  exists t, wf_ty t = true /\ nzt t = true /\
+    go_size arm t <> ll_size arm t /\ go_align arm t <> ll_align arm t /\
+    go_offsets arm (top_fields t) <> ll_offsets arm (top_fields t).
+Proof.
+  exists w_i32_i64. destruct arm_witness as [W [Z [G [L [GA [LA [GO LO]]]]]]].
+  rewrite G, L, GA, LA, GO, LO. repeat split; auto; discriminate.
+Qed.
+Print Assumptions layouts_agree_arm_refuted.
+
+(* wasm: internal/build installs StdSizes{4,4}; nested aggregates are not padded to their
+   alignment there (and i64 is aligned to 8 by LLVM) *)
+Theorem layouts_agree_wasm_refuted :
+  exists t, wf_ty t = true /\ nzt t = true /\
+    go_size wasm t <> ll_size wasm t /\ go_offsets wasm (top_fields t) <> ll_offsets wasm (top_fields t).
+Proof.
+  exists w_nested_unpadded. destruct wasm_witness as [W [Z [GO [LO [G L]]]]].
+  rewrite G, L, GO, LO. repeat split; auto; discriminate.
+Qed.
+Print Assumptions layouts_agree_wasm_refuted.
+
+(* 386: the descriptor table says Align(int64) = 8 although type checker and LLVM use 4;
+   descriptor sizes are then not multiples of descriptor alignments *)
+Theorem descriptor_agrees_386_refuted :
+  agree_target i386 /\
+  abi_align i386 (TInt 8) <> ll_align i386 (TInt 8) /\
+  exists t, wf_ty t = true /\ nzt t = true /\ ~ (abi_align i386 t | abi_size i386 t).
+Proof.
+  destruct i386_witness as [A [W [Z [AA [LA [_ [S AL]]]]]]].
+  split; [exact A|]. split; [rewrite AA, LA; discriminate|].
+  exists w_i32_i64. repeat split; auto. rewrite S, AL. intros [c E]. lia.
+Qed.
+Print Assumptions descriptor_agrees_386_refuted.
+
+(* PtrBytes: the loop keeps the PtrBytes of the LAST field, so a pointer followed by a
+   pointer-free field is not covered: struct { *T; int64 } has PtrBytes 0 *)
+Theorem ptrbytes_prefix_refuted :
+  exists T t, agree_target T /\ ptr T = 8 /\ wf_ty t = true /\ nzt t = true /\
+    abi_ptrbytes T t < ll_ptr_end T t.
+Proof.
+  exists amd64, w_ptr_then_int. destruct ptrbytes_witness as [A [W [Z [B E]]]].
+  rewrite B, E. repeat split; auto.
+Qed.
+Print Assumptions ptrbytes_prefix_refuted.
